@@ -544,6 +544,35 @@ def run(ctx):
                       {"case": c, "failures": bad[:10], "settings_fields": o.get("fields"), "json_text": o.get("text"),
                        "replay": "echo '<case json>' | build/target/debug/serde"}, found_input=True)
     ctx.oblig("oracle-roundtrip-chain-zarr", n_viol == 0, "%d cases violate the property" % n_viol)
+    # JSON *text* round trip in a build of nuts-rs with its default features only (the main harness
+    # enables `zarr`, whose zarrs dependency switches on serde_json's float_roundtrip)
+    if not replaying:
+        nf_dir = os.path.join(VERIF, "harness_nofeat")
+        nf_target = os.path.join(BUILD, "target_nofeat")
+        rc_, out_ = sh(["cargo", "build", "--offline", "--bins"], cwd=nf_dir, timeout=3000, env={"CARGO_TARGET_DIR": nf_target})
+        ctx.oblig("harness-build-default-features", rc_ == 0, out_[-2000:])
+        if rc_ == 0:
+            r_ = ctx.rnd()
+            tcases = [{"id": i, "preset": p, "seed": r_.getrandbits(60), "n": 150 if ctx.tier == "quick" else 3000}
+                      for i, p in enumerate(PRESETS)]
+            inp = "\n".join(json.dumps(c) for c in tcases) + "\n"
+            rc2, out2 = sh([os.path.join(nf_target, "debug", "serde_text")], input=inp, timeout=1500)
+            touts = [json.loads(l) for l in out2.split("\n") if l.strip().startswith("{")]
+            ctx.oblig("harness-run-default-features", rc2 == 0 and len(touts) == len(tcases) and not any("error" in o for o in touts), out2[-1500:])
+            n_text = 0
+            tried = 0
+            for c, o in zip(tcases, touts):
+                tried += o.get("tried", 0)
+                ctx.evaluations += o.get("tried", 0)
+                stats["text_roundtrips_default_features"] = stats.get("text_roundtrips_default_features", 0) + o.get("tried", 0)
+                stats["float_fields_default_features"] = stats.get("float_fields_default_features", 0) + o.get("float_fields", 0)
+                if o.get("n_failures", 0) > 0:
+                    n_text += 1
+                    f0 = o["failures"][0]
+                    violation(ctx, "implementation violates C19 (%s, default-feature build): from_str(to_string(s)) differs from s in %d of %d settings values; first difference %s" % (
+                        c["preset"], o["n_failures"], o.get("tried", 0), json.dumps(f0.get("first_difference") or f0.get("error"))[:300]),
+                        {"case": c, "failures": o["failures"], "replay": "echo '<case json>' | build/target_nofeat/debug/serde_text"}, found_input=True)
+            ctx.oblig("oracle-text-roundtrip-default-features", n_text == 0 and tried > 0, "%d presets fail, %d values tried" % (n_text, tried))
     ctx.oblig("json-is-field-by-field-image", n_shape == 0, "%d cases" % n_shape)
     controls = [outs[c["id"]] for c in cases if c.get("control") and c["id"] in outs and "chain_other_seed" in outs[c["id"]]]
     ctx.oblig("chain-comparison-sensitive", replaying or bool(controls) and all(o["chain_other_seed"] != o["chain_orig"] for o in controls),
@@ -723,7 +752,7 @@ ASSUMPTIONS = {
     "C19": [
         "field values are finite floats and integers below 2^64 (the property's quantifier); a non-finite float (e.g. the documented momentum_decoherence_length = f64::INFINITY) is written as null and does not deserialise - observed and recorded under out_of_range_observations, not a violation of C19 as stated",
         "usize is 64 bits wide (x86_64 target of the harness)",
-        "serde_json is built with the features the harness build unifies (preserve_order, float_roundtrip, both switched on by zarrs); a build of the crate without the `zarr` feature parses float text with serde_json's default algorithm, which is not covered here",
+        "the model-level correspondence runs in a build with the `zarr` feature (serde_json features preserve_order and float_roundtrip unified in); the JSON text round trip is additionally run in a default-feature build of the crate (harness_nofeat) on seeded settings values with every float field replaced",
         "model dec is deliberately stricter than serde outside the image of enc: an integer token for an f64 field and the map form of a unit variant are rejected by the model, accepted by serde_json (documented in model/Serde.v); the round-trip theorem does not depend on it",
         "Zarr: the synchronous backend on a MemoryStore is exercised end to end; the asynchronous backend is only checked to contain the same `sampler_settings` <- serde_json::to_value(settings) statement (source pattern)",
     ]
